@@ -50,6 +50,8 @@ func runSelftest(args []string) int {
 // /repo outside /repo and /verif, and checks that the property check reports a violation there.
 func runMutants(dir, only, prop string, par int, withSeeded bool) []mutantResult {
 	patches, _ := filepath.Glob(filepath.Join(dir, "*.patch"))
+	mp, _ := filepath.Glob(filepath.Join(dir, "mustpass", "*.patch"))
+	patches = append(patches, mp...)
 	if withSeeded {
 		sd, _ := filepath.Glob(filepath.Join(verifDir, "seeded", "*", "patch.diff"))
 		for _, p := range sd {
@@ -166,6 +168,20 @@ func runMutants(dir, only, prop string, par int, withSeeded bool) []mutantResult
 						caught = true
 					}
 				}
+			}
+			if strings.Contains(metaSrc, "# expect: PASS") {
+				// must-pass corpus: a behaviour-preserving edit; any VIOLATION line is a false alarm
+				alarm := false
+				for _, o := range outs {
+					if strings.Contains(o, "VIOLATION property=") {
+						alarm = true
+					}
+				}
+				r.ok = !alarm
+				if alarm {
+					r.msg = "FALSE ALARM on a behaviour-preserving edit:\n" + truncate(strings.Join(outs, "\n"), 1500)
+				}
+				return
 			}
 			r.ok = caught
 			if !caught {
